@@ -39,6 +39,7 @@ type Store struct {
 	nCalls    int
 	// Partition: keep the messages per (Sender, Target) of the StorageID, as a store
 	// serving several sessions has to; the bundled memory.Storage ignores the ID.
+	FailSets  bool // every SetSeqNum call fails from now on (a counter store that has gone away)
 	Partition bool
 	parts     map[string]map[int]simplefixgo.SendingMessage
 }
@@ -86,6 +87,12 @@ func (s *Store) rec(c StoreCall) {
 	}
 }
 
+func (s *Store) SetFailSets(on bool) {
+	s.mu.Lock()
+	s.FailSets = on
+	s.mu.Unlock()
+}
+
 func (s *Store) Calls() []StoreCall {
 	s.mu.Lock()
 	defer s.mu.Unlock()
@@ -107,6 +114,13 @@ func (s *Store) GetCurrSeqNum(id fix.StorageID) (int, error) {
 func (s *Store) ResetSeqNum(id fix.StorageID) error { return s.Inner.ResetSeqNum(id) }
 
 func (s *Store) SetSeqNum(id fix.StorageID, n int) error {
+	s.mu.Lock()
+	failing := s.FailSets
+	s.mu.Unlock()
+	if failing {
+		s.rec(StoreCall{Op: "set", Seq: n, Side: string(id.Side), Err: true})
+		return ErrInjected
+	}
 	err := s.Inner.SetSeqNum(id, n)
 	s.rec(StoreCall{Op: "set", Seq: n, Side: string(id.Side), Err: err != nil})
 	return err
